@@ -45,6 +45,7 @@ What is proved, for ALL programs (any `Node` tree, typed or not), every package 
 -/
 namespace Heph.Props.C12
 open Heph Heph.TransKotlin Heph.Brackets
+-- the Scala translator: `Props/C12Scala.lean` (namespace `Heph.Props.C12.Scala`, imported above and audited with this file)
 
 /-- tags of the non-layout pieces, in order: doc = what the program calls for (every program) -/
 theorem doc_tags (package : Option String) (p : Program) :
